@@ -192,10 +192,11 @@ class SimEnv:
         self._stack.close()
         return False
 
-    def engine(self, backend, opts=None):
+    def engine(self, backend, opts=None, copy=True):
+        """copy=False hands the caller's dictionary object itself to the engine (as a user who keeps one options dictionary would)"""
         import strawberryfields as sf
 
-        return sf.Engine(backend, backend_options=dict(opts or {}))
+        return sf.Engine(backend, backend_options=dict(opts or {}) if copy else opts)
 
 
 # ------------------------------------------------------------------------------------------------
